@@ -250,22 +250,22 @@ Fixpoint elem_all (P : option omsg -> list N -> bool) (e : elem) : bool :=
   | Elem _ _ o _ unk slots => P o unk && forallb (forallb (elem_all P)) slots
   end.
 
+(* a predicate on options holds at some element of the tree *)
+Fixpoint elem_any (H : option omsg -> bool) (e : elem) : bool :=
+  match e with
+  | Elem _ _ o _ _ slots => H o || existsb (existsb (elem_any H)) slots
+  end.
+
 (* a field with source retention somewhere in the options, at any depth *)
 Definition opts_has_source (o : option omsg) : bool :=
   match o with None => false | Some (_, fs, _) => has_source_fields fs end.
-Fixpoint elem_has_source (e : elem) : bool :=
-  match e with
-  | Elem _ _ o _ _ slots => opts_has_source o || existsb (existsb elem_has_source) slots
-  end.
+Definition elem_has_source : elem -> bool := elem_any opts_has_source.
 Definition no_source (f : file) : Prop := elem_has_source (f_root f) = false.
 
 (* ... directly in the options message (depth 1) *)
 Definition opts_top_source (o : option omsg) : bool :=
   match o with None => false | Some (_, fs, _) => existsb (fun f => is_source (fld_ret f)) fs end.
-Fixpoint elem_top_source (e : elem) : bool :=
-  match e with
-  | Elem _ _ o _ _ slots => opts_top_source o || existsb (existsb elem_top_source) slots
-  end.
+Definition elem_top_source : elem -> bool := elem_any opts_top_source.
 
 (* no source-retention field hides inside the value of a field that is itself kept *)
 Definition opts_nested_free (o : option omsg) : bool :=
